@@ -112,6 +112,7 @@ type Stats struct {
 	EngineErrors   []string
 	Violations     []*Violation
 	SamplePaths    []string
+	SampleWitness  []map[string]uint64
 	Observations   []string
 	AssertLabels   map[string]int
 	PanicSites     map[string]int
@@ -155,9 +156,14 @@ func (st *Stats) Merge(o *Stats) {
 	st.EngineErrors = append(st.EngineErrors, o.EngineErrors...)
 	st.Violations = append(st.Violations, o.Violations...)
 	st.SolverErrors = append(st.SolverErrors, o.SolverErrors...)
-	for _, s := range o.SamplePaths {
+	for i, s := range o.SamplePaths {
 		if len(st.SamplePaths) < 8 {
 			st.SamplePaths = append(st.SamplePaths, s)
+			if i < len(o.SampleWitness) {
+				st.SampleWitness = append(st.SampleWitness, o.SampleWitness[i])
+			} else {
+				st.SampleWitness = append(st.SampleWitness, nil)
+			}
 		}
 	}
 	for _, s := range o.Observations {
